@@ -11,7 +11,8 @@
 //! sectors awaiting early-termination processing, the claim bit; the power actor's
 //! total_pledge_collateral; every UpdatePledgeTotal delta in the invocation trace and its exit code.
 use fil_actor_miner::{
-    ApplyRewardParams, BitFieldQueue, CompactCommD, CronEventPayload, DeferredCronEventParams,
+    ExpirationExtension2, ExtendSectorExpiration2Params, PieceActivationManifest, ProveReplicaUpdates3Params,
+    SectorUpdateManifest, ApplyRewardParams, BitFieldQueue, CompactCommD, CronEventPayload, DeferredCronEventParams,
     Method as MM, PoStPartition, PreCommitMap, PreCommitSectorBatchParams2, ProveCommitSectors3Params,
     ReportConsensusFaultParams, SectorActivationManifest, SectorPreCommitInfo, Sectors,
     State as MinerState, SubmitWindowedPoStParams, TerminateSectorsParams, TerminationDeclaration,
@@ -23,7 +24,7 @@ use fil_actor_reward::{AwardBlockRewardParams, Method as RewardMethod};
 use fil_actors_integration_tests::expects::Expect;
 use fil_actors_integration_tests::util::{create_accounts, create_miner_deposit_for_test};
 use fil_actors_runtime::runtime::Policy;
-use fil_actors_runtime::test_utils::make_sealed_cid;
+use fil_actors_runtime::test_utils::{make_piece_cid, make_sealed_cid};
 use fil_actors_runtime::{
     BURNT_FUNDS_ACTOR_ADDR, CRON_ACTOR_ADDR, REWARD_ACTOR_ADDR, STORAGE_POWER_ACTOR_ADDR,
     SYSTEM_ACTOR_ADDR,
@@ -64,13 +65,18 @@ enum GOp {
     /// `n` times: (optionally submit the window PoSt of miner m's open deadline), go to the deadline's last
     /// epoch, cron tick, next epoch
     Deadlines { m: usize, n: usize, post: bool },
-    Award { m: usize, penalty: i128, gas: i128, wins: i64 },
+    /// penalty = `penalty` * `pscale` attoFIL
+    Award { m: usize, penalty: i64, pscale: i64, gas: i64, wins: i64 },
     Withdraw { m: usize, stranger: bool, fil: i64 },
     /// terminate up to `n` live sectors, starting with the `pick`-th
     Terminate { m: usize, pick: usize, n: usize },
     RepayDebt { m: usize },
     ReportFault { m: usize },
     Post { m: usize },
+    /// extend the expiration of one live sector by `days`
+    Extend { m: usize, pick: usize, days: i64 },
+    /// snap data into one live sector (pledge top-up)
+    ReplicaUpdate { m: usize, pick: usize },
 }
 
 #[derive(Clone, Debug, Serialize, Deserialize)]
@@ -421,6 +427,19 @@ fn derive(w: &W, i: usize, t: &InvocationTrace, pre: &MSnap, post: &MSnap, epoch
         } else {
             ("cron_other", "MOther".to_string())
         }
+    } else if m == MM::ProveReplicaUpdates3 as u64 {
+        let p: ProveReplicaUpdates3Params = t.params.as_ref().unwrap().deserialize().unwrap();
+        let nums: Vec<u64> = p.sector_updates.iter().map(|u| u.sector).collect();
+        // the pledge computed for the new power is visible only through max(old, computed) = the new pledge
+        let ups: Vec<(u64, TokenAmount)> = if ok {
+            nums.iter().filter(|s| post.live.contains_key(s)).map(|s| (*s, post.live[s].0.clone())).collect()
+        } else if let Some((d, _)) = &failed_upt {
+            note("inferred_inputs");
+            nums.iter().enumerate().filter(|(_, s)| pre.live.contains_key(s)).map(|(k, s)| (*s, if k == 0 { &pre.live[s].0 + TokenAmount::from_atto(d.clone()) } else { pre.live[s].0.clone() })).collect()
+        } else { vec![] };
+        ("replica_update", format!("MReplicaUpdate {}", plist(ups.iter().map(|(s, a)| (*s, a)))))
+    } else if m == MM::ExtendSectorExpiration2 as u64 {
+        ("extend", "MOther".to_string())
     } else if m == MM::SubmitWindowedPoSt as u64 {
         ("post", "MOther".to_string())
     } else {
@@ -504,6 +523,8 @@ struct Ctx<'a> {
     sectors_max: u64,
     accepted: bool,
     rejected: bool,
+    /// number of miner invocations in the last message
+    last_calls: usize,
 }
 
 /// executes one top-level message, derives the model op, records the step, runs the monitors
@@ -511,9 +532,34 @@ fn message<P: Serialize>(w: &mut W, cx: &mut Ctx, label: &'static str, from: &Ad
     let pre = snapshot(w);
     let epoch = w.v.epoch();
     w.v.take_invocations();
+    let root0 = w.v.checkpoint();
     let r = exec(&w.v, from, to, value, method, params);
     let traces = w.v.take_invocations();
     let c = code(&r);
+    let r_message = r.message.clone();
+    // A cron callback whose UpdatePledgeTotal was refused is rolled back, so what it WOULD have expired /
+    // repaid (inputs of the model) is not visible in the state.  Re-run the same tick from the same state
+    // with a power actor whose pledge total is large enough, read the inputs there, and restore the real
+    // post-state.  Only the inputs come from this run; codes, sends and states compared are the real ones.
+    let mut cf: Option<(Vec<InvocationTrace>, Snap)> = None;
+    if *to == CRON_ACTOR_ADDR {
+        let mut calls = vec![];
+        for t in &traces { miner_calls(w, t, &mut calls); }
+        if calls.iter().any(|(_, t)| pledge_sends(t).iter().any(|s| s.1 == 20)) {
+            let root1 = w.v.checkpoint();
+            w.v.rollback(root0);
+            vm_api::util::mutate_state(&w.v, &STORAGE_POWER_ACTOR_ADDR, |st: &mut PowerState| {
+                st.total_pledge_collateral += TokenAmount::from_whole(1_000_000_000);
+            });
+            let _ = exec::<()>(&w.v, from, to, value, method, None);
+            let tr = w.v.take_invocations();
+            let sn = snapshot(w);
+            w.v.rollback(root1);
+            w.v.panics.borrow_mut().clear();
+            cf = Some((tr, sn));
+            *cx.stats.extra.entry("counterfactual_ticks".into()).or_insert(json!(0)) = json!(cx.stats.extra.get("counterfactual_ticks").and_then(|x| x.as_u64()).unwrap_or(0) + 1);
+        }
+    }
     // a new miner?
     let mut created = None;
     if *to == STORAGE_POWER_ACTOR_ADDR && method == PowerMethod::CreateMiner as u64 {
@@ -543,6 +589,7 @@ fn message<P: Serialize>(w: &mut W, cx: &mut Ctx, label: &'static str, from: &Ad
         let mut calls = vec![];
         for t in &traces { miner_calls(w, t, &mut calls); }
         let is_cron = *to == CRON_ACTOR_ADDR;
+        cx.last_calls = calls.len();
         if calls.is_empty() {
             // nothing reached a miner: the model state must be unchanged
             op_text = format!("Tick {} []", cf::z(epoch));
@@ -553,7 +600,21 @@ fn message<P: Serialize>(w: &mut W, cx: &mut Ctx, label: &'static str, from: &Ad
                 let later = calls[k + 1..].iter().any(|(j, _)| j == i);
                 let earlier = calls[..k].iter().any(|(j, _)| j == i);
                 if earlier { *cx.stats.extra.entry("second_callback_same_tick".into()).or_insert(json!(0)) = json!(1); }
-                let d = derive(w, *i, t, &pre.miners[*i], &post.miners[*i], epoch, later, cx.stats);
+                let mut d = derive(w, *i, t, &pre.miners[*i], &post.miners[*i], epoch, later, cx.stats);
+                if let Some((tr, sn)) = &cf {
+                    if pledge_sends(t).iter().any(|s| s.1 == 20) {
+                        // the same callback (same miner, same occurrence) in the counterfactual run
+                        let occ = calls[..k].iter().filter(|(j, _)| j == i).count();
+                        let mut ccalls = vec![];
+                        for x in tr { miner_calls(w, x, &mut ccalls); }
+                        if let Some((_, ct)) = ccalls.iter().filter(|(j, _)| j == i).nth(occ) {
+                            if ct.exit_code.is_success() {
+                                let dd = derive(w, *i, ct, &pre.miners[*i], &sn.miners[*i], epoch, later || earlier, cx.stats);
+                                d.mop = dd.mop;
+                            }
+                        }
+                    }
+                }
                 let cc = t.exit_code.value();
                 codes.push(cc);
                 sends.extend(if d.ext != 0 { vec![] } else { pledge_sends(t) });
@@ -565,6 +626,11 @@ fn message<P: Serialize>(w: &mut W, cx: &mut Ctx, label: &'static str, from: &Ad
         } else {
             let (i, t) = calls[0];
             let d = derive(w, i, t, &pre.miners[i], &post.miners[i], epoch, false, cx.stats);
+            if d.ext != 0 {
+                // keep one sample message per (kind, code) of the rejections that are inputs of the model
+                let key = format!("extmsg:{}:{}", d.kind, d.ext);
+                if !cx.stats.extra.contains_key(&key) { cx.stats.extra.insert(key, json!(r_message.chars().take(300).collect::<String>())); }
+            }
             let cc = t.exit_code.value();
             codes.push(cc);
             sends.extend(if d.ext != 0 { vec![] } else { pledge_sends(t) });
@@ -615,8 +681,18 @@ fn submit_post(w: &mut W, cx: &mut Ctx, m: usize) {
     message(w, cx, "post", &wk, &id, &TokenAmount::zero(), MM::SubmitWindowedPoSt as u64, Some(params));
 }
 
+fn miner_of(op: &GOp) -> Option<usize> {
+    match op {
+        GOp::Fund { m, .. } | GOp::PreCommit { m, .. } | GOp::ProveCommit { m, .. } | GOp::Deadlines { m, .. }
+        | GOp::Award { m, .. } | GOp::Withdraw { m, .. } | GOp::Terminate { m, .. } | GOp::RepayDebt { m }
+        | GOp::ReportFault { m } | GOp::Post { m } | GOp::Extend { m, .. } | GOp::ReplicaUpdate { m, .. } => Some(*m),
+        _ => None,
+    }
+}
+
 fn run_gop(w: &mut W, cx: &mut Ctx, op: &GOp) {
     let seal = RegisteredSealProof::StackedDRG32GiBV1P1;
+    if let Some(m) = miner_of(op) { if m >= w.miners.len() || w.miners[m].k == usize::MAX { return; } }
     match op {
         GOp::Create { k, extra } => {
             let (o, wk) = (w.accts[2 * k], w.accts[2 * k + 1]);
@@ -686,10 +762,11 @@ fn run_gop(w: &mut W, cx: &mut Ctx, op: &GOp) {
                 w.v.set_epoch(last);
                 tick(w, cx);
                 w.v.set_epoch(last + 1);
+                if cx.last_calls == 0 { break; }   // nobody is on the cron any more
             }
         }
-        GOp::Award { m, penalty, gas, wins } => {
-            let p = AwardBlockRewardParams { miner: w.miners[*m].id, penalty: TokenAmount::from_atto(*penalty), gas_reward: TokenAmount::from_atto(*gas), win_count: *wins };
+        GOp::Award { m, penalty, pscale, gas, wins } => {
+            let p = AwardBlockRewardParams { miner: w.miners[*m].id, penalty: TokenAmount::from_atto(*penalty as i128 * *pscale as i128), gas_reward: TokenAmount::from_atto(*gas), win_count: *wins };
             message(w, cx, "award", &SYSTEM_ACTOR_ADDR, &REWARD_ACTOR_ADDR, &TokenAmount::zero(), RewardMethod::AwardBlockReward as u64, Some(p));
         }
         GOp::Withdraw { m, stranger, fil } => {
@@ -726,6 +803,42 @@ fn run_gop(w: &mut W, cx: &mut Ctx, op: &GOp) {
             w.v.consensus_fault.replace(None);
         }
         GOp::Post { m } => submit_post(w, cx, *m),
+        GOp::Extend { m, pick, days } => {
+            let id = w.miners[*m].id;
+            let pst: PowerState = get_state(&w.v, &STORAGE_POWER_ACTOR_ADDR).unwrap();
+            let sn = snap_miner(&w.v, &id, &pst);
+            let live: Vec<(u64, i64)> = sn.live.iter().map(|(k, v)| (*k, v.1)).collect();
+            if live.is_empty() { return; }
+            let (s, exp) = live[pick % live.len()];
+            let st: MinerState = get_state(&w.v, &id).unwrap();
+            let Ok((d, p)) = st.find_sector(w.v.store.as_ref(), s) else { return };
+            let params = ExtendSectorExpiration2Params { extensions: vec![ExpirationExtension2 {
+                deadline: d, partition: p, sectors: BitField::try_from_bits([s]).unwrap(), sectors_with_claims: vec![], new_expiration: exp + days * DAY }] };
+            let wk = worker(w, *m);
+            message(w, cx, "extend", &wk, &id, &TokenAmount::zero(), MM::ExtendSectorExpiration2 as u64, Some(params));
+        }
+        GOp::ReplicaUpdate { m, pick } => {
+            let id = w.miners[*m].id;
+            let pst: PowerState = get_state(&w.v, &STORAGE_POWER_ACTOR_ADDR).unwrap();
+            let sn = snap_miner(&w.v, &id, &pst);
+            let live: Vec<u64> = sn.live.keys().cloned().collect();
+            if live.is_empty() { return; }
+            let s = live[pick % live.len()];
+            let st: MinerState = get_state(&w.v, &id).unwrap();
+            let Ok((d, p)) = st.find_sector(w.v.store.as_ref(), s) else { return };
+            let params = ProveReplicaUpdates3Params {
+                sector_updates: vec![SectorUpdateManifest { sector: s, deadline: d, partition: p, new_sealed_cid: make_sealed_cid(format!("replica {}", s).as_bytes()),
+                    pieces: vec![PieceActivationManifest { cid: make_piece_cid(format!("piece {}", s).as_bytes()), size: fvm_shared::piece::PaddedPieceSize(1 << 30), verified_allocation_key: None, notify: vec![] }] }],
+                sector_proofs: vec![RawBytes::new(vec![1, 2, 3, 4])],
+                aggregate_proof: RawBytes::default(),
+                update_proofs_type: seal.registered_update_proof().unwrap(),
+                aggregate_proof_type: None,
+                require_activation_success: true,
+                require_notification_success: false,
+            };
+            let wk = worker(w, *m);
+            message(w, cx, "replica_update", &wk, &id, &TokenAmount::zero(), MM::ProveReplicaUpdates3 as u64, Some(params));
+        }
     }
 }
 
@@ -762,7 +875,7 @@ fn gen_op(r: &mut Prng, w: &W, ops_so_far: usize, plan: &mut std::collections::V
         10..=19 if ready > 0 => GOp::ProveCommit { m, n: 1 + r.below(ready as u64) as usize },
         10..=13 if !mh.pending.is_empty() => GOp::Jump { epochs: 151 + r.range(0, 40), tick: r.chance(50) },
         14..=19 => GOp::Fund { m, fil: r.range(1, 500) },
-        20..=31 => GOp::Award { m, penalty: if r.chance(60) { 0 } else if r.chance(70) { r.below(1 << 58) as i128 } else { (r.below(1 << 62) as i128) << 4 }, gas: r.below(1 << 50) as i128, wins: if r.chance(95) { r.range(1, 3) } else { 0 } },
+        20..=31 => GOp::Award { m, penalty: if r.chance(60) { 0 } else { r.below(1 << 58) as i64 }, pscale: if r.chance(70) { 1 } else { 200 }, gas: r.below(1 << 50) as i64, wins: if r.chance(95) { r.range(1, 3) } else { 0 } },
         32..=43 => GOp::Withdraw { m, stranger: r.chance(8), fil: if r.chance(75) { r.range(0, 40) } else { 1_000_000 } },
         44..=51 => GOp::Jump { epochs: *r.pick(&[5i64, 30, 120, 600, 1500, DAY, DAY + 77, 2 * DAY, 5 * DAY, 31 * DAY, 43 * DAY, 100 * DAY, 215 * DAY]), tick: r.chance(85) },
         52..=63 => GOp::Deadlines { m, n: *r.pick(&[1usize, 1, 2, 3, 6, 12, 24, 48, 49]), post: r.chance(75) },
@@ -775,7 +888,21 @@ fn gen_op(r: &mut Prng, w: &W, ops_so_far: usize, plan: &mut std::collections::V
         68..=79 => GOp::Terminate { m, pick: r.below(50) as usize, n: 1 + r.below(4) as usize },
         80..=83 => GOp::RepayDebt { m },
         84..=88 => GOp::ReportFault { m },
-        89..=94 => GOp::Post { m },
+        89..=91 => GOp::Post { m },
+        92..=93 => GOp::Extend { m, pick: r.below(50) as usize, days: r.range(1, 60) },
+        94..=96 => {
+            // the sector must have been proven once: post first
+            plan.push_back(GOp::ReplicaUpdate { m, pick: r.below(50) as usize });
+            GOp::Deadlines { m, n: *r.pick(&[1usize, 3, 12, 48]), post: true }
+        }
+        97 => {
+            // let everything go faulty and stay faulty for more than fault_max_age: early terminations out of cron
+            plan.push_back(GOp::Deadlines { m, n: 49, post: false });
+            plan.push_back(GOp::Jump { epochs: 42 * DAY, tick: true });
+            plan.push_back(GOp::Deadlines { m, n: 49, post: false });
+            for _ in 0..(2 + r.below(6)) { plan.push_back(GOp::Jump { epochs: 1, tick: true }); }
+            GOp::Jump { epochs: 2 * DAY, tick: true }
+        }
         _ => GOp::Jump { epochs: r.range(1, 20), tick: true },
     }
 }
@@ -790,7 +917,7 @@ fn setup(sectors_max: u64) -> W {
 
 fn run_case(gc: &GCase, stats: &mut Stats, genr: Option<(&mut Prng, usize)>) -> (Case, GCase, Vec<serde_json::Value>) {
     let mut w = setup(gc.sectors_max);
-    let mut cx = Ctx { steps: vec![], fails: vec![], seen: BTreeSet::new(), stats, done: vec![], sectors_max: gc.sectors_max, accepted: false, rejected: false };
+    let mut cx = Ctx { steps: vec![], fails: vec![], seen: BTreeSet::new(), stats, done: vec![], sectors_max: gc.sectors_max, accepted: false, rejected: false, last_calls: 0 };
     let mut genr = genr;
     let n = match &genr { Some((_, n)) => *n, None => gc.ops.len() };
     let mut plan = std::collections::VecDeque::new();
@@ -814,7 +941,7 @@ fn witness() -> GCase {
         GOp::Withdraw { m: 0, stranger: false, fil: 1 },
         GOp::Jump { epochs: DAY + 10, tick: false },
         GOp::Withdraw { m: 0, stranger: false, fil: 1 },
-        GOp::Award { m: 0, penalty: 0, gas: 1000, wins: 1 },
+        GOp::Award { m: 0, penalty: 0, pscale: 1, gas: 1000, wins: 1 },
         GOp::PreCommit { m: 0, count: 2 },
         GOp::Jump { epochs: 200, tick: true },
         GOp::ProveCommit { m: 0, n: 2 },
@@ -824,7 +951,7 @@ fn witness() -> GCase {
 }
 
 fn main() {
-    std::panic::set_hook(Box::new(|_| {}));
+    if std::env::var("COLL_DEBUG").is_err() { std::panic::set_hook(Box::new(|_| {})); }
     let a = cf::parse_args();
     let mut stats = Stats::default();
     let header = "From stdpp Require Import gmap.\nFrom VF Require Import Model.Collateral Base.Corr.\nFrom Coq Require Import ZArith List.\nImport ListNotations.\nOpen Scope Z_scope.\n";
